@@ -18,7 +18,7 @@ def functions_with_hashes(repo, funcs):
     cache = {}
     for f in funcs:
         mod, qual = f.split(":")
-        path = os.path.join(repo, "rockit", mod + ".py")
+        path = os.path.join(repo, "rockit", *mod.split("/")) + ".py"
         if path not in cache:
             try:
                 src = open(path).read()
@@ -73,7 +73,9 @@ META = {
     "C11": _m("proof", ["direct_method:DirectMethod.fill_placeholders_T", "direct_method:DirectMethod.fill_placeholders_t0", "stage:Stage.set_T", "stage:Stage.set_t0", "sampling_method:SamplingMethod.add_variables_V"], "free-time NLP = fixed-time oracle with T a variable plus T>=0", [A_CASADI, A_OPTI, A_FLOAT, A_PY]),
     "C12": _m("proof", ["stage:Stage.stage", "stage:Stage.clone", "stage:Stage.__deepcopy__", "stage:Stage._transcribe_recurse", "stage:Stage._placeholders_transcribe_recurse", "ocp:Ocp._transcribe", "direct_method:DirectMethod.main_transcribe", "direct_method:DirectMethod.transcribe", "direct_method:OptiWrapper.add_objective"], "multi-stage NLP = disjoint union of the stage oracles + master rows; clones = directly declared stages; clone field completeness", [A_CASADI, A_OPTI, A_PY, "deepcopy contract"]),
     "C13": _m("proof", ["ocp:Ocp._transcribed", "ocp:Ocp._transcribe", "ocp:Ocp._untranscribe", "ocp:Ocp.solver", "stage:Stage._set_transcribed", "stage:Stage.set_T", "stage:Stage.set_t0", "stage:Stage.set_value", "stage:Stage.set_initial", "stage:Stage.subject_to", "stage:Stage.add_objective", "stage:Stage.method", "stage:Stage.set_der", "stage:Stage.clear_constraints", "sampling_method:SamplingMethod.clean", "direct_collocation:DirectCollocation.clean", "direct_method:DirectMethod.clean"], "invalidate-or-reapply discipline and clean-completeness as structural obligations over the AST of every public mutator; catalogue of histories compared with the freshly written OCP on the casadi model", [A_CASADI, A_OPTI, A_PY, "deepcopy contract: copy.deepcopy yields an isomorphic object graph with the same CasADi symbols"]),
+    "C15": _m("other", ["sampling_method:SamplingMethod.add_inf_constraints", "stage:Stage.inf_der", "stage:Stage.inf_inert", "multiple_shooting:MultipleShooting.add_constraints", "single_shooting:SingleShooting.add_constraints", "direct_collocation:DirectCollocation.add_constraints"], "operands handed to the (assumed) spline algebra are the Bernstein form of the step's own polynomial; Bernstein/convex-hull lemmas by z3", [A_CASADI, A_OPTI, A_PY, "A-BSPLINE-ALG: splines/spline.py BSpline arithmetic/comparison and casadi_helpers.reinterpret_expr return the exact coefficients of the result (replaced by stubs in the engine, not verified)"]),
     "C16": _m("proof", ["stage:Stage.der", "stage:Stage.control", "stage:AbstractSignal.der", "stage:AbstractSignal.register", "stage:Stage.set_der", "stage:Stage._ode"], "der(e) on the casadi model equals the chain rule with uninterpreted partial derivatives, on every branch; control chains; raises", [A_CASADI, A_PY, "jtimes contract: directional derivative (chain rule over uninterpreted functions)"]),
+    "C17": _m("other", ["splines/micro_spline:eval_on_knots", "splines/micro_spline:eval_basis_knotindex", "splines/micro_spline:eval_basis_knotindex_subgrid", "splines/micro_spline:bspline_derivative", "sampling_method:BSplineSignal.__init__", "sampling_method:BSplineSignal.sample", "sampling_method:SamplingMethod.add_variables_V", "sampling_method:SamplingMethod.get_signals_at", "stage:Stage._grid_intg_fine"], "spline kernels against an independent exact Cox-de Boor recursion; b-spline variables through the real pipeline", [A_CASADI, A_PY, "SplineMethod is not reachable (networkx missing): trajectories of SplineMethod are not covered", "get_greville_points uses general sparsity patterns that the casadi model does not represent: not covered"]),
     "C20": _m("proof", ["stage:Stage._ode", "stage:Stage._diffeq", "stage:Stage._param_value", "stage:Stage.add_objective", "stage:Stage.set_value", "stage:Stage.set_initial", "stage:Stage.subject_to", "stage:Stage._sample", "stage:Stage.der", "casadi_helpers:for_all_primitives", "direct_method:DirectMethod.main_transcribe", "direct_method:DirectMethod.transcribe", "direct_method:OptiWrapper.subject_to", "direct_method:OptiWrapper.transcribe_placeholders", "sampling_method:SamplingMethod.intg_rk", "sampling_method:SamplingMethod.intg_expl_euler", "sampling_method:SamplingMethod.discrete_system", "sampling_method:SamplingMethod.set_value"], "every catalogued fault x method raises during declaration/transcription of the real code on the casadi model; documented exception handlers only", [A_CASADI, A_OPTI, A_PY, "Function(...) / Opti reject free and foreign symbols and constant constraints (modelled after CasADi, validated natively)"]),
     "C14": _m("proof", ["stage:Stage._parse_scale", "direct_method:OptiWrapper.variable", "direct_method:OptiWrapper.transcribe_placeholders"] + PLACE[:1], "scaled NLP in physical quantities = unscaled oracle rows divided by their scale", [A_CASADI, A_OPTI, A_FLOAT, A_PY]),
 }
